@@ -322,7 +322,8 @@ def tyProxyStep (fmt spell base : String) (kvs : List String) (impl : String) : 
       if !impl.startsWith "acc " then some true else
       -- an INI section without `type` is the documented default type; its loaded Type is empty, which is the
       -- case the round-trip theorem excludes by hypothesis (the server's default type applies)
-      if fmt = "ini" && spell = "-" then none else
+      -- (`type =` with an empty value is the same case for the legacy loader: empty means "not given")
+      if fmt = "ini" && (spell = "-" || spell = "x") then none else
       match splitFirst ((impl.drop 4).toString) " cli " with
       | none => none
       | some (hd, rest) =>
@@ -360,7 +361,8 @@ def tyVisitorStep (fmt spell base : String) (impl : String) : Verdict :=
         else "acc go=" ++ l.cfg.go.name ++ " wrap=" ++ hx l.wrapper ++ " ty=" ++ hx l.cfg.ty
     let prop : Option Bool :=
       if !impl.startsWith "acc " then some true else
-      if fmt = "ini" && spell = "-" then none else
+      -- (`type =` with an empty value is the same case for the legacy loader: empty means "not given")
+      if fmt = "ini" && (spell = "-" || spell = "x") then none else
       match ((impl.drop 4).toString).splitOn " " with
       | [g, w, t] =>
         match splitFirst g "=", splitFirst w "=", splitFirst t "=" with
